@@ -12,7 +12,7 @@ RULE = ('Message.parse(data, header_only, crypto) on: random byte strings; every
         'messages of each exchange kind; a structure-aware grid (every length / next-payload / more / count / critical field at '
         'payload, proposal, transform, attribute, selector, delete, notify level x hostile values); the same mutations applied to '
         'the PLAINTEXT of protected messages, re-padded and re-MACed with the right keys by the reference (plus wrong pad length, '
-        'pad > body, empty body, non-block-multiple ciphertext, IV only); (e) scaling: 17 extreme but well-formed shapes (thousands of pairwise different transforms in one proposal, many proposals, many attributes, selectors, SPIs, chained payloads, huge single bodies) at sizes 3..48 KB (thorough: 1.5..64 KB), clear and inside SK. Oracle per call: outcome in {return, InvalidSyntax, '
+        'pad > body, empty body, non-block-multiple ciphertext, IV only); (e) scaling: 17 extreme but well-formed shapes (thousands of pairwise different transforms in one proposal, many proposals, many attributes, selectors, SPIs, chained payloads, huge single bodies) at sizes 3..48 KB (thorough: 1.5..64 KB), clear and inside SK; (f) each shard process parses 260 (thorough 3000) DISTINCT well-formed messages with long proposals and then the first ones again: all accepted, same result as the first time. Oracle per call: outcome in {return, InvalidSyntax, '
         'UnsupportedCriticalPayload} and executed repository lines <= 600 + 20*len + 5*S (S = SPI counts declared in DELETE headers); '
         'over budget the call is aborted from the LINE callback. distinct = (corpus class, outcome, raising function, length bucket).')
 ASSUMPTIONS = ['sys.monitoring LINE events of /repo code objects measure work; constants fixed from the densest honest inputs with >=3x head-room',
@@ -151,6 +151,38 @@ def large_inputs(ck, P, rng):
                 P.one(f'large.sealed.{name}', seal(hdr2, chain, first, keys, rng), crypto=crypto, desc={'inner': chain, 'inner_first': first, 'keys': keys})
 
 
+def long_lived(ck, P, rng):
+    """(f) parsing is a function of the datagram alone: hundreds of DISTINCT well-formed messages with long proposals (the kind of content an implementation
+    is tempted to cache) are parsed by one process; each must be accepted, and a message parsed again at the end must give what it gave the first time."""
+    first = []
+    total = 260 if not ck.thorough() else 3000
+    for i in range(total):
+        ntr = rng.randrange(12, 40)
+        trs = []          # legal ids per type, so that the library parses them into objects
+        for j in range(ntr):
+            ty = rng.choice([1, 2, 3, 4])
+            tid = {1: 12, 2: rng.choice([2, 5, 7]), 3: rng.choice([2, 12, 14]), 4: rng.choice([14, 15, 16, 19, 20, 21])}[ty]
+            attrs = struct.pack('>HH', 0x800e, rng.choice([128, 192, 256])) if ty == 1 else b''
+            trs.append(_transform(j == ntr - 1, ty, tid, attrs))
+        spi = gen.rb(rng, rng.choice([0, 4, 8]))
+        chain = _pl(40, _proposal(True, 1, trs, spi=spi)) + _pl(0, gen.rb(rng, 32))
+        hdr = {'spi_i': gen.rb(rng, 8), 'spi_r': bytes(8), 'major': 2, 'minor': 0, 'exch': 34, 'flags': 0x08, 'mid': 0}
+        data = codec.enc_header(hdr, 33, 28 + len(chain)) + chain
+        r = P.one('long-lived.distinct-long-proposals', data)
+        ck.count('longlived.parsed')
+        if r is None:
+            ck.violation('well-formed-message-rejected-depending-on-what-was-parsed-before', {'n_before': i, 'len': len(data), 'data': data[:96]}, {'data': data, 'n_before': i})
+            break
+        if i < 8:
+            first.append((data, bytes(r.to_bytes())))
+    for data, want in first:
+        r = P.one('long-lived.reparse', data)
+        if r is None or bytes(r.to_bytes()) != want:
+            ck.violation('same-datagram-parsed-differently-later-in-the-life-of-the-process', {'data': data[:96]}, {'data': data})
+        else:
+            ck.count('longlived.reparsed_equal')
+
+
 def run(ck):
     P = Parser(ck)
     rng = ck.rng('c06', ck.shard[0])
@@ -259,6 +291,7 @@ def run(ck):
                     ck.seen('sealed.pathologies', pname)
                     P.one(f'sealed.patho.{pname}', remac(b), crypto=crypto, desc={'inner': b'', 'keys': keys})
     large_inputs(ck, P, rng)
+    long_lived(ck, P, ck.rng('long-lived', ck.shard[0]))
     ck.notes['max_lines_per_byte'] = round(P.max_density, 2)
     ck.sets['max_lines_per_byte'].add(round(P.max_density, 1))
     ck.sample({'class': 'grid.payload', 'example': codec.encode_clear(bases['informational'])[:64]})
@@ -273,6 +306,7 @@ def verdict(ck):
     ck.floor('rejected share %', 100 * c['outcome.protocol_error'] // max(total, 1), 25)
     for cls in ('grid.proposal', 'grid.transform', 'grid.selector', 'grid.delete', 'sealed.grid.payload', 'sealed.grid.proposal'):
         ck.floor(f'cases {cls}', c[f'parse.{cls}'], 300)
+    ck.floor('distinct long proposals parsed by one process', c['longlived.parsed'], 1500)
     ck.floor('large extreme shapes', len(ck.sets['large.shapes']), 15)
     ck.floor('large inputs parsed', c['large.inputs'], 40)
     ck.floor('authentic-but-malformed pathologies', len(ck.sets['sealed.pathologies']), 10)
